@@ -7,15 +7,15 @@ ROOT = os.path.dirname(os.path.abspath(__file__))
 
 CHECKS = {
     'C01': ('Sched', 'TLC exhaustive on Sched.tla (3 algorithms, 64 programs, every interleaving of requests/dispatch/replies/reload) with the action property C01_Release (judged at the release decision and at the hand-out, also when a dispatch pass is cut short by an exception and the leftover jobs are served later); every transition of a smaller instance and simulated behaviours of larger ones replayed on the real schedule/farm/dag code; TLC validates each recorded step against Blocked() computed from the declared inputs and the ground-truth in-flight set decoded from worker transports', '5.C01'),
-    'C02': ('Sched', 'TLC exhaustive on Sched.tla with C02_Step (complete + minimal re-scheduling after each success reply, value-level declarations); real-code replays validated step by step by TLC (consumers = declared value-level inputs); the end state (store at quiescence = from-scratch run, every execution justified, nobody owed a run; spec/Sched_Data.tla) is checked with an abstract worker, with the real worker.Context.run + real shelve store (half of the histories with algorithms that save twice per run) and with the real worker entry point over in-memory sockets', '5.C02'),
+    'C02': ('Sched', 'TLC exhaustive on Sched.tla with C02_Step (complete + minimal re-scheduling after each success reply, value-level declarations); real-code replays validated step by step by TLC (consumers = declared value-level inputs); the end state (store at quiescence = from-scratch run, every execution justified, nobody owed a run; spec/Sched_Data.tla) is checked with an abstract worker, with the real worker.Context.run + real shelve store (half of the histories with algorithms that save twice per run) and with the real worker entry point over in-memory sockets (bots alternately deprecated dawgie.Task subclasses and dawgie.base objects)', '5.C02'),
     'C03': ('Sched', 'TLC exhaustive with OneAtATime / NoDrop / ReplyRecorded / ReleasedWasPending, including dispatch passes that raise mid-batch (TickFault, jobs held in farm._jobs) and reloads with late replies; on real-code traces TLC checks one-at-a-time on the wire, hand-out at most once, messages stay queued, every live reply recorded exactly once and propagated, crew view = in-flight bag', '5.C03'),
-    'C04': ('Sched', 'TLC exhaustive with IdleEmpty / Progress / NoStuck / HeldFlushed (+ liveness Quiesce under FairSpec in thorough); on real-code traces TLC checks IdleEmpty after every event and Progress on every dispatch, and every schedule is drained to quiescence', '5.C04'),
+    'C04': ('Sched', 'TLC exhaustive with IdleEmpty / Progress / NoStuck / HeldFlushed (+ liveness Quiesce under FairSpec in thorough); on real-code traces TLC checks IdleEmpty after every event and Progress on every dispatch, and every schedule is drained to quiescence; the timer path (periodics / defer / complete) is covered by replaying the MomentFire firing histories with clause C04.IdleEmpty; program families include feedback declarations, self-reading algorithms (accumulators), explicit cloud/cluster placement wishes without a provider, same short names across tasks', '5.C04'),
     'C05': ('Sched', 'TLC exhaustive with C05_Contained over every state in which a non-success reply can arrive; on real-code traces TLC checks withdrawal from all transitive dependents, the frame condition on all other work, nothing triggered, outcome recorded (chronicle file read back)', '5.C05'),
     'C10': ('Lifecycle', 'TLC exhaustive on Lifecycle.tla (every order of background-step completions vs. triggers from their real sources, <=3 submissions, environment toggles, reset/archive cycles) with Edges/Rest/Active/Rejected/ArchiveReturns and the liveness property Return under FairSpec; every transition of a smaller instance + simulated behaviours executed on the real FSM (real transitions machine, real submit Process steps, real cmd_reset, real farm.dispatch) with held background steps; TLC validates every recorded step incl. the path of states passed through, out-of-turn triggers where the documented machine forbids them and running_trigger where it allows it while a background step is outstanding (RawRun), and rest after draining', '5.C10'),
     'C11': ('Farm', 'TLC exhaustive on Farm.tla (registrations with matching/stale revision, disconnects, status polls, dispatch ticks, replies, reload and archive cycles; 3-4 worker connections) with Eligible/Silent/Leave/Stay/Fields/FreshLarger/DrawnIff/RunIdFromEventOnly; transitions + simulated behaviours replayed on the real Hand protocol objects, dispatch, notify_all; TLC validates the messages decoded from each fake worker transport against the ground-truth worker table it maintains itself', '5.C11'),
     'C12': ('Lifecycle', 'TLC exhaustive on Lifecycle.tla with the poller split into observe / callback (OnlyWhenAllowed, ExactlyOnce, NotLost, Refused) and the liveness property EventuallyIfIdle; the strongest priority REQUESTED so far is accumulated by the trace specification from the submissions themselves (StrongestRequested, StrongestWaits), unrecognised priority strings included; a focus instance explores two submissions against a loaded pipeline draining in every order; System.tla composes the real FSM with the real scheduler and judges the fire against ground truth; replays on the real FSM with the real poller functions running in gated threads and their deferred callback delivered as a separate event; update_trigger is wrapped to log the farm/scheduler state at the instant it is called; TLC validates each step and the quiescent end state', '5.C12'),
-    'C13': ('DbLock', 'TLC exhaustive on DbLock.tla (3-4 clients; request / poll / release / disconnect by any client at every step) with Mutex, ToldTruth, CrashFree, GrantNext and the liveness properties NoStarve / LockFreed under fairness; EVERY transition of the 3-client instance + simulated 4-client behaviours executed on real comms.Worker protocol objects with one virtual clock per connection and real pickled commands in 1/7-byte chunks, partly through the real blocking client functions; TLC validates lock bit, ownership flags and every status message decoded from the client transports', '5.C13'),
-    'C14': ('Frame', 'TLC exhaustive on Frame.tla (labelled byte streams, transcribed reassembly loop and TwistedWrapper.process, all 32 handshake validity assignments, every chunking as a path); every chunking of short streams on the three real protocol classes and on the real blocking reader message.receive (socket with short reads at every segment boundary), simulated chunkings of handshake streams, and real-length streams at every single / pair of split positions; what reached the application is recorded after every chunk and validated by TLC (prefix, reassembly, gate, fail-closed, coalesced delivery)', '5.C14'),
+    'C13': ('DbLock', 'TLC exhaustive on DbLock.tla (3-4 clients; request / poll / release / disconnect by any client at every step) (and the holder reopening the database under the lock) with Mutex, ToldTruth, CrashFree, GrantNext and the liveness properties NoStarve / LockFreed under fairness; EVERY transition of the 3-client instance + simulated 4-client behaviours executed on real comms.Worker protocol objects with one virtual clock per connection and real pickled commands in 1/7-byte chunks, partly through the real blocking client functions; TLC validates lock bit, ownership flags and every status message decoded from the client transports', '5.C13'),
+    'C14': ('Frame', 'TLC exhaustive on Frame.tla (labelled byte streams, transcribed reassembly loop and TwistedWrapper.process, all 32 handshake validity assignments, every chunking as a path); every chunking of short streams on the three real protocol classes and on the real blocking reader message.receive (socket with short reads at every segment boundary), simulated chunkings of handshake streams, two connections of one protocol class served interleaved, and real-length streams at every single / pair of split positions; what reached the application is recorded after every chunk and validated by TLC (prefix, reassembly, gate, fail-closed, coalesced delivery)', '5.C14'),
     'C16': ('Gate', 'TLC enumerates ~9.8k package descriptors (15 factory-kind subsets x 8 dependency shapes x 49 rule clauses at every applicable position) and checks the transcribed _walk/_verify traversal against Accept(d) = no violation; every descriptor (stratified sample in quick) is materialised on disk and judged by the real tools.compliant._verify (and the CLI for a sample); accepted packages must pass dag.Construct, schedule.build, organize, next_job_batch; TLC validates verdict = Accept(d) on the records', '5.C16'),
     'C19': ('FrontEnd', 'TLC enumerates 18k (quick) / 400k (thorough) request paths over a tree with two roots, outside files and in/out symlinks, checks the transcribed _static against the declarative jail, and 9.7k endpoint x method x certificate x hook situations read from the real routing table; each is executed on the real fe._static, StaticContent.render_GET, a real twisted Site, DynamicContent.render with recording handlers; TLC validates which marker bytes came back / whether the handler ran', '5.C19'),
     'C20': ('Moment', 'TLC checks the transcribed _delay against Occ(spec) (Computable, Lands, NotFurther) on 126 specifications x 4384 instants of a 3-year calendar, and the firing model MomentFire (FireTargets, BootFires, BootOnce, Armed, Recurs); the real _delay under an injected clock for every/sampled (spec, instant) pair and the real defer/periodics/complete with the virtual reactor clock for every transition of the firing model are validated by TLC; the fires-once defect of defer/complete was repaired (commit 37363f0) after the repair had been model-checked as the rearm variant of MomentFire', '5.C20'),
